@@ -26,14 +26,14 @@ LIMITS = {'NAND2_X1': (2, 1), 'AOI21_X1': (3, 1), 'MUX2_X1': (3, 1), 'HA_X1': (2
 
 def plan(tier, seed):
     q = tier == 'quick'
-    return [{'n': 700 if q else 15000} for _ in range(15)] + [{'corpus': True, 'big': not q}]
+    return [{'n': 700 if q else 15000, 'wide': 6 if q else 120} for _ in range(15)] + [{'corpus': True, 'big': not q}]
 
 
 def conclude(agg):
     c = agg['counters']
     return [f'monitor counter {k} is zero' for k in ('steps', 'op/add_node', 'op/add_line_implicit', 'op/add_line_explicit', 'op/remove_line', 'op/remove_node',
                                                      'op/eliminate', 'op/substitute', 'op/copy', 'op/pickle', 'op/resolve', 'moved_then_touched', 'corpus_circuits',
-                                                     'invariant_walks')
+                                                     'invariant_walks', 'wide_fork_steps')
             if c.get(k, 0) == 0]
 
 
@@ -46,6 +46,14 @@ def norm(snap):
             l.pop()
         return l
     return [(a, b, strip(i), strip(o)) for a, b, i, o in nodes], lines, io
+
+
+def name_structure(c):
+    """structure of a circuit up to renumbering: nodes by (name, is fork) with kind and pin counts, connections by names and pins, port order by name"""
+    key = lambda n: (n.name, n.kind == '__fork__')
+    nodes = {key(n): n.kind for n in c.nodes}
+    conns = sorted((key(l.driver), l.driver_pin, key(l.reader), l.reader_pin) for l in c.lines)
+    return nodes, conns, [key(n) for n in c.io_nodes], len(c.nodes), len(c.lines)
 
 
 def contracted_connections(c):
@@ -259,15 +267,16 @@ def run_history(case, ctx):
                 moved.clear()
                 continue
             elif op in ('copy', 'pickle'):
-                before = norm(RC.snapshot_real(c))
+                before = name_structure(c)
                 log.append((op,))
                 c2 = c.copy() if op == 'copy' else pickle.loads(pickle.dumps(c))
                 ctx.count('op/' + op)
                 if c2 is c:
                     ctx.violation('copy-identity', f'{op} returned the same object', dict(case, log=log))
                     return
-                if norm(RC.snapshot_real(c2)) != before or c2.name != c.name:
-                    ctx.violation('copy-structure', f'{op}: the result differs structurally (names, kinds, pins or indices) from the original; history: {log[-8:]}',
+                if name_structure(c2) != before or c2.name != c.name:
+                    # (indices may be renumbered by a copy - the property only demands that they are consecutive, which sync_check verifies below)
+                    ctx.violation('copy-structure', f'{op}: the result differs structurally (names, kinds, connections with pins, port order) from the original; history: {log[-8:]}',
                                   dict(case, log=log))
                     return
                 if any(n2 is n1 for n1, n2 in zip(c.nodes, c2.nodes)):
@@ -304,6 +313,69 @@ def run_history(case, ctx):
         ctx.count('moved_then_touched')
     ctx.case(case, touched_moved, key=log)
     ctx.sample({'history': [list(x) for x in log[:25]], 'final': repr(c)})
+
+
+def wide_history(case, ctx):
+    """edit history on nodes with a very wide fan-out / fan-in: a fork with 65..300 branches (clock / reset nets look like this), branches removed at
+    the front, in the middle, next to the end and at the end, new branches added in between; invariants and the executable model after every step"""
+    from kyupy.circuit import Circuit, Node, Line
+    rng = random.Random(case['hseed'])
+    c = Circuit('w')
+    m = RC.Model()
+    log = []
+    W = case['width']
+
+    def node(name, kind):
+        Node(c, name, kind) if kind != '__fork__' else Node(c, name)
+        return m.add_node(name, kind)
+
+    def check(what):
+        bad = RC.inv_circuit(c)
+        ctx.count('invariant_walks')
+        if bad:
+            ctx.violation('graph-invariant', f'after {what}: {bad[0]} (+{len(bad) - 1} more); fork with {W} branches; history: {log[-8:]}', dict(case, log=log))
+            return False
+        a, b_ = norm(RC.snapshot_real(c)), norm(m.snapshot())
+        if a != b_:
+            part = next(p_ for p_, x, y in zip(('nodes', 'lines', 'io'), a, b_) if x != y)
+            ctx.violation('model-mismatch', f'after {what}: {part} differ from the documented semantics; fork with {W} branches; history: {log[-8:]}', dict(case, log=log))
+            return False
+        return True
+
+    with ctx.guard('edit-raises', case):
+        node('src', 'input')
+        node('stem', '__fork__')
+        Line(c, c.nodes[0], c.nodes[1])
+        m.add_line(m.nodes[0], m.nodes[1])
+        for k in range(W):
+            node(f'r{k}', 'BUF1')
+            Line(c, c.nodes[1], c.nodes[-1])
+            m.add_line(m.nodes[1], m.nodes[-1])
+        if not check('construction'):
+            return
+        nxt = W
+        for step in range(case['len']):
+            fork = c.nodes[1]
+            n_out = len(fork.outs)
+            r = rng.random()
+            if r < 0.7 and n_out > 2:
+                pin = rng.choice([0, 1, n_out // 2, n_out - 3, n_out - 2, n_out - 2, n_out - 1, rng.randrange(n_out)])
+                pin = max(0, min(n_out - 1, pin))
+                l = fork.outs[pin]
+                log.append(('remove_branch', pin, n_out))
+                ml = m.lines[l.index]
+                l.remove()
+                m.remove_line(ml)
+            else:
+                node(f'r{nxt}', 'BUF1')
+                nxt += 1
+                log.append(('add_branch', n_out))
+                Line(c, c.nodes[1], c.nodes[-1])
+                m.add_line(m.nodes[1], m.nodes[-1])
+            ctx.count('wide_fork_steps')
+            if not check(str(log[-1])):
+                return
+    ctx.case(case, True, key=[W, case['hseed']])
 
 
 def corpus(ctx, spec):
@@ -372,10 +444,15 @@ def run(spec, ctx):
     for i in range(spec['n']):
         rng = random.Random(f'C09/{spec["seed"]}/{spec["shard"]}/{i}')
         run_history({'hseed': rng.randrange(1 << 40), 'len': rng.choice([5, 12, 25, 40, 80])}, ctx)
+    for i in range(spec.get('wide', 0)):
+        rng = random.Random(f'C09w/{spec["seed"]}/{spec["shard"]}/{i}')
+        wide_history({'wide': True, 'hseed': rng.randrange(1 << 40), 'len': rng.choice([6, 20, 60]), 'width': rng.choice([65, 66, 100, 129, 257, 300])}, ctx)
 
 
 def replay(case, ctx):
     if case.get('corpus'):
         corpus(ctx, {'big': case['corpus'].startswith('b15')})
+    elif case.get('wide'):
+        wide_history({'wide': True, 'hseed': case['hseed'], 'len': case['len'], 'width': case['width']}, ctx)
     else:
         run_history({'hseed': case['hseed'], 'len': case['len']}, ctx)
